@@ -651,7 +651,30 @@ func (e *Exec) binop(s *State, i *ssa.BinOp) (Val, string) {
 			return mkNot(eq), ""
 		}
 		unsupported("interface operator %s", i.Op)
-	case SliceV, MapV, Closure:
+	case SliceV:
+		// a slice can only be compared with nil
+		if yv, ok := y.(SliceV); ok && (xv.Arr.isNil() && xv.Len_ == 0 || yv.Arr.isNil() && yv.Len_ == 0) {
+			eq := xv.Arr.isNil() == yv.Arr.isNil()
+			switch i.Op {
+			case token.EQL:
+				return mkBool(eq), ""
+			case token.NEQ:
+				return mkBool(!eq), ""
+			}
+		}
+		unsupported("comparison on %T", x)
+	case MapV:
+		if yv, ok := y.(MapV); ok && (xv.Cell == 0 || yv.Cell == 0) {
+			eq := xv.Cell == yv.Cell
+			switch i.Op {
+			case token.EQL:
+				return mkBool(eq), ""
+			case token.NEQ:
+				return mkBool(!eq), ""
+			}
+		}
+		unsupported("comparison on %T", x)
+	case Closure:
 		unsupported("comparison on %T", x)
 	case *T:
 		yv, ok := y.(*T)
